@@ -16,6 +16,7 @@ import dns.resolver
 import dns.rrset
 
 from vlib import core
+from vlib.ref import names as RN
 from vlib.mon.hooks import swap_attr
 
 PROP = "C16"
@@ -208,7 +209,9 @@ def candidates(qname_labels, absolute, search, search_list, domain, ndots):
     else:
         sl = []
     nd = 1 if ndots is None else ndots
-    out = [q + tuple(s) for s in sl]
+    # a search-list combination that is not a legal name (over 255 octets) is not a candidate; the others, and the name taken
+    # as absolute, are still tried
+    out = [q + tuple(s) for s in sl if RN.fits(q + tuple(s))]
     if len(q) > nd:
         out.insert(0, absq)
     else:
@@ -457,6 +460,9 @@ def gen_cfg(rng):
     absolute = rng.random() < 0.4
     nl = rng.randint(1, 3)
     q = tuple(rng.choice((b"www", b"host", b"a", b"b")) for _ in range(nl))
+    if not absolute and rng.random() < 0.06:
+        # a long relative name: legal taken as absolute, too long with some (or all) of the search-list suffixes
+        q = tuple(rng.choice((b"w", b"h")) * 61 for _ in range(4)) + ((b"x" * rng.choice((1, 3, 4, 5)),) if rng.random() < 0.7 else ())
     if absolute:
         q = q + (b"",)
     search_list = [(rng.choice((b"corp", b"lab", b"example")), b"test", b"") for _ in range(rng.choice((0, 0, 1, 2, 3)))]
